@@ -81,10 +81,11 @@ class SsbScriptSsbDecompiler:
         self._source_map_builder = SourceMapBuilder()
 
         # Step 1: Build labels
+        # The routines given to the constructor are kept as they are, so that convert() can be called again.
         resolver = OpsLabelJumpToResolver(self._routine_ops)
-        self._routine_ops = list(resolver)
+        routine_ops = list(resolver)
 
-        for r_id, (r_info, r_ops) in enumerate(zip(self._routine_infos, self._routine_ops)):
+        for r_id, (r_info, r_ops) in enumerate(zip(self._routine_infos, routine_ops)):
             logger.debug(
                 "Decompiling (%d, %s)...",
                 r_id,
